@@ -274,6 +274,20 @@ class Evaluator:
                 raise EvalRaise("KeyError")
         if isinstance(e, ast.Call):
             return self.eval_call(e, env, fi, depth)
+        if isinstance(e, (ast.ListComp, ast.GeneratorExp, ast.SetComp)) and len(e.generators) == 1 and not e.generators[0].is_async:
+            gen = e.generators[0]
+            it = self.eval(gen.iter, env, fi, depth)
+            out = []
+            try:
+                items = list(it)
+            except TypeError:
+                raise EvalRaise("TypeError")
+            for item in items:
+                local = dict(env)
+                self.assign(gen.target, item, local)
+                if all(self.truth(self.eval(c, local, fi, depth)) for c in gen.ifs):
+                    out.append(self.eval(e.elt, local, fi, depth))
+            return frozenset(out) if isinstance(e, ast.SetComp) else out
         raise Unsupported(f"expression {type(e).__name__}")
 
     def eval_call(self, e: ast.Call, env: Dict[str, Any], fi: FuncInfo, depth: int) -> Any:
@@ -289,8 +303,13 @@ class Evaluator:
             return self.truth(args[0])
         if cn == "int" and len(args) == 1:
             return args[0].code if isinstance(args[0], DT) else int(args[0])
-        if cn in ("max", "min", "abs", "len", "tuple", "isinstance") and cn != "isinstance":
-            return {"max": max, "min": min, "abs": abs, "len": len, "tuple": tuple}[cn](*args)
+        if cn in ("max", "min", "abs", "len", "tuple", "list", "sorted", "range", "sum", "any", "all", "set", "zip", "enumerate", "reversed"):
+            try:
+                r = {"max": max, "min": min, "abs": abs, "len": len, "tuple": tuple, "list": list, "sorted": sorted, "range": range, "sum": sum,
+                     "any": any, "all": all, "set": frozenset, "zip": zip, "enumerate": enumerate, "reversed": reversed}[cn](*args)
+            except (TypeError, ValueError, IndexError):
+                raise EvalRaise("TypeError")
+            return list(r) if cn in ("range", "zip", "enumerate", "reversed") else r
         if last == "DataType" and len(args) == 1:
             v = args[0]
             if isinstance(v, DT):
